@@ -141,6 +141,52 @@ func genFramesD(o hx.Opts, emit func(string), r *hx.Rand) {
 		warn = append(warn, rec13(21, 0, i+1, []byte{1, 90}))
 	}
 	line(1, "H", warn)
+	// hostile fragment headers at the START of a message, followed by a flood of handshake
+	// records: every combination of (message length, fragment_offset, fragment_length) over the
+	// boundary values around the 64 body bytes that are really there and around the 24-bit /
+	// maxHandshake limits. Whatever the header claims, the endpoint may hold one maximum-size
+	// message plus one record; the flood (6 x 16384 bytes) is larger than that.
+	bvals := []int{0, 1, 63, 64, 65, 0xFFFF, 0x10000, 0xFFFFFF}
+	hostile := func(total, off, flen int) []byte {
+		f := hsFrag(1, total, 0, off, make([]byte, 64))
+		f[9], f[10], f[11] = byte(flen>>16), byte(flen>>8), byte(flen)
+		return rec13(22, 0, 1, f)
+	}
+	for _, total := range bvals {
+		for _, off := range bvals {
+			for _, flen := range bvals {
+				ops := "H"
+				if (total+off+flen)%3 == 0 {
+					ops = "H,H"
+				}
+				emit(fmt.Sprintf("fn=framesd stack=dtlcp hv=%d ops=%s dgrams=%s flood=6x16384", (total+off)%2, ops, hx.Hex(hostile(total, off, flen))))
+			}
+		}
+	}
+	// the same class at random: arbitrary 24-bit values, the hostile header after 0..2 complete
+	// messages, other flood shapes
+	nh := 40 * o.Scale
+	if o.Tier == "thorough" {
+		nh = 4000 * o.Scale
+	}
+	for i := 0; i < nh; i++ {
+		pick := func() int {
+			if r.Chance(60) {
+				return hx.Pick(r, bvals)
+			}
+			return r.Intn(1 << uint(1+r.Intn(24)))
+		}
+		var ds []string
+		ops := []string{"H"}
+		k := r.Intn(3)
+		for j := 0; j < k; j++ {
+			ds = append(ds, hx.Hex(rec13(22, 0, 10+j, hsFrag(14, 0, j, 0, nil))))
+			ops = append(ops, "H")
+		}
+		ds = append(ds, hx.Hex(hostile(pick(), pick(), pick())))
+		emit(fmt.Sprintf("fn=framesd stack=dtlcp hv=%d ops=%s dgrams=%s flood=%s", r.Intn(2), strings.Join(ops, ","), strings.Join(ds, "/"),
+			hx.Pick(r, []string{"6x16384", "100x1000", "30x4000", "7x16000"})))
+	}
 	n := 1200 * o.Scale
 	if o.Tier == "thorough" {
 		n = 40000 * o.Scale
